@@ -290,6 +290,17 @@ def hosts(rule: str, tier: str = "quick"):
         fnodes.append(oh.make_node("Identity", [o_], ["q"]))
         fn = oh.make_function("local", "Fn", ["p"], ["q"], fnodes, [oh.make_opsetid("", 18)])
         finish("instance inside a model-local function", [oh.make_node("Fn", ["x"], ["y"], domain="local")], [], ["y"], 1, functions=[fn], extra=[("local", 1)])
+        # ... and inside an If branch of the function body (what the application needs - opset imports, new functions - must
+        # reach the function that encloses the branch)
+        fbn, fbi = [], []
+        ob_, _ = instance(rule, "p", "fb", fbn, fbi)
+        tb_ = oh.make_graph(fbn, "fthen", [], [vi(ob_)], fbi)
+        eb_ = oh.make_graph([oh.make_node("Abs", ["p"], ["fe"])], "felse", [], [vi("fe")])
+        fn_if = oh.make_function("local", "FnIf", ["p", "fc"], ["q"],
+                                 [oh.make_node("If", ["fc"], ["fy"], then_branch=tb_, else_branch=eb_), oh.make_node("Identity", ["fy"], ["q"])],
+                                 [oh.make_opsetid("", 18)])
+        finish("instance inside an If branch of a model-local function", [oh.make_node("FnIf", ["x", "c"], ["y"], domain="local")], [], ["y"], 1,
+               inputs=("x", "c"), functions=[fn_if], extra=[("local", 1)])
         # the same pattern in two model-local functions, and in the main graph plus a function (what one application adds to the model,
         # e.g. an opset import, must reach every function that needs it)
         f2nodes, f2inits = [], []
